@@ -330,6 +330,10 @@ def gen_seq(rng, nops, cs, tmpsz, files, big=False, faulty=False, zero=False):
             n = rng.choice([0, 1, a, a // 2, max(a - 1, 0), min(a, cs), min(a, cs - 1), rng.randint(0, max(a, 0))])
             ops.append("mw,%d,%d" % (qi, n)); ln[qi] -= n
         elif op in ("rf", "re", "co", "sq", "rs"):
+            if op == "sq" and not zero:
+                # read_squash of an empty queue leaves a 0-length chunk behind
+                n = rng.choice([1, 10, 1023, cs])
+                ops.append("am,%d,%d,%d" % (qi, seed, n)); ln[qi] += n
             ops.append("%s,%d" % (op, qi))
             if op == "rs":
                 ln[qi] = 0
@@ -483,7 +487,7 @@ def gen_exhaustive_small(depth):
     """all op sequences of the given depth over a small op alphabet"""
     import itertools
     alpha = ["am,0,1,700", "am,0,2,1100", "ab,0,3,1023", "af,0,0,10,50", "st,1,900", "sw,1,1500",
-             "mw,0,800", "mw,1,600", "mt,1,4,600", "cr,0,1,100,700", "cm,0,1500", "sq,1", "st,0,300",
+             "mw,0,800", "mw,1,600", "mt,1,4,600", "cr,0,1,100,700", "cm,0,1500", "pk,1,2000", "st,0,300",
              "re,0", "rd,1,1000"]
     lines = []
     for t in itertools.product(alpha, repeat=depth):
@@ -582,8 +586,13 @@ def count_fired(line, out):
 
 
 def checked(line, out):
-    count_fired(line, out)
-    return oracle(line, out)
+    try:
+        count_fired(line, out)
+        return oracle(line, out)
+    except (IndexError, ValueError, KeyError):
+        # truncated observation of a killed / crashed implementation: the
+        # crash itself is reported by the runner
+        return None
 
 
 def run(ctx):
@@ -612,9 +621,12 @@ def run(ctx):
                 ctx.dist[o.split(",")[0]] += 1
         # a hanging implementation (e.g. a corrupted chunk pool) must not stall the
         # check: it is killed and reported like a crash
-        limit = "60" if name.startswith("cq(0-length") else "600"
+        limit = "60" if name.startswith("cq(0-length") else ("120" if q else "900")
         C.log("  stream %s: %d cases" % (name, len(lines)))
-        ctx.differential(name, ["timeout", "-s", "KILL", limit, exe], "cq", lines, checked, classify)
+        # the 0-length streams run in one process: after a crash the rest of the
+        # stream is not judged (one report per defect instead of misaligned noise)
+        ctx.differential(name, ["timeout", "-s", "KILL", limit, exe], "cq", lines, checked, classify,
+                         stateless=not name.startswith("cq(0-length"))
     ctx.faults_fired += FIRED[0]
     ctx.exhaustive = False
     ctx.notes.append("exhaustive: all op sequences of length 3 over a 15-op alphabet; in %d spill sequences of "
